@@ -34,6 +34,7 @@ def default_layout() -> Dict[str, Any]:
         "ncols": {t: len(FIELDS[t]) for t in FIELDS},
         "table_order": ["IN", "OUT", "INTRA"],
         "blank_rows": 1,
+        "leading_blank_rows": 0,
         "junk": {t: [] for t in FIELDS},
     }
 
@@ -42,6 +43,9 @@ def random_layout(rng: random.Random, need: Optional[Dict[str, set]] = None) -> 
     """Random injective field->column map per table; the first column holds a mandatory field; optional fields mapped or
     omitted (fields in `need[table]` are always mapped); 0-5 unmapped junk columns; any table order; 0-3 blank rows."""
     layout: Dict[str, Any] = {"columns": {}, "ncols": {}, "junk": {}, "table_order": rng.sample(["IN", "OUT", "INTRA"], 3), "blank_rows": rng.choice((0, 1, 1, 2, 3, 3, 12, 40, 130))}
+    # now and then the tables start far down the sheet (as after thousands of earlier rows): sheet rows - RP2's transaction ids -
+    # then lie in the range of calendar years
+    layout["leading_blank_rows"] = rng.choice((0,) * 12 + (3, 60, rng.randint(1985, 2030)))
     for table, fields in FIELDS.items():
         must = set(MANDATORY[table]) | (need or {}).get(table, set())
         chosen = [f for f in fields if f in must or rng.random() < 0.6]
@@ -167,7 +171,7 @@ def write_input(
     ids: Dict[str, Dict[str, int]] = {}
     for asset in sheet_order or list(histories):
         hist = histories[asset]
-        grid: List[List[Any]] = []
+        grid: List[List[Any]] = [[] for _ in range(layout.get("leading_blank_rows", 0))]
         ids[asset] = {}
         for table in layout["table_order"]:
             rows = sorted((r for r in hist["rows"] if r["t"] == table), key=lambda r: r["row"])
